@@ -108,7 +108,7 @@ def run(tier, seed, ev):
                     os.makedirs(xd)
                     if cfg[0] in ("path", "linkpath") and cfg[1] not in (0, 0x2f):
                         open(os.path.join(xd.encode(), b"d" + bytes([cfg[1]]) + b"e"), "wb").write(b"in the way")
-                    p = subprocess.run([lha, "xw=" + xd, a], capture_output=True, env=V.run_env(), stdin=subprocess.DEVNULL, timeout=120)
+                    p = V.run_bounded([lha, "xw=" + xd, a], capture_output=True, env=V.run_env(), stdin=subprocess.DEVNULL, timeout=120)
                     e = {"e": "Out", "mode": mode, "cfg": [cfg[0], cfg[1], cfg[2]], "out": list(p.stdout + p.stderr)}
                     if p.returncode == 255:
                         p.returncode = 1
@@ -116,9 +116,9 @@ def run(tier, seed, ev):
                 elif mode.startswith("xx"):
                     xd = os.path.join(sc, "x%d_%d" % (k, n))
                     os.makedirs(xd)
-                    first = subprocess.run([lha, ("xiw=" if mode == "xxi" else "xw=") + xd, a], capture_output=True, env=V.run_env(), stdin=subprocess.DEVNULL, timeout=120)
+                    first = V.run_bounded([lha, ("xiw=" if mode == "xxi" else "xw=") + xd, a], capture_output=True, env=V.run_env(), stdin=subprocess.DEVNULL, timeout=120)
                     cmd = {"xxn": "xnw=", "xxi": "xiw="}.get(mode, "xw=") + xd
-                    p = subprocess.run([lha, cmd, a], capture_output=True, env=V.run_env(), input=ANSWERS[mode], timeout=120)
+                    p = V.run_bounded([lha, cmd, a], capture_output=True, env=V.run_env(), input=ANSWERS[mode], timeout=120)
                     e = {"e": "Out", "mode": mode, "cfg": [cfg[0], cfg[1], cfg[2]], "out": list(p.stdout + p.stderr)}
                     if p.returncode == 255:
                         p.returncode = 1           # (end of input at the prompt: the tool's own exit(-1))
@@ -127,7 +127,7 @@ def run(tier, seed, ev):
                     xd = os.path.join(sc, "x%d_%d" % (k, n))
                     os.makedirs(xd)
                     cmd = {"t": "t", "x": "xw=" + xd, "xn": "xnw=" + xd, "xq0": "xq0w=" + xd, "xq1": "xq1w=" + xd, "xq2": "xq2w=" + xd, "p": "p"}[mode]
-                    p = subprocess.run([lha, cmd, a], capture_output=True, env=V.run_env(), stdin=subprocess.DEVNULL, timeout=120)
+                    p = V.run_bounded([lha, cmd, a], capture_output=True, env=V.run_env(), stdin=subprocess.DEVNULL, timeout=120)
                     e = {"e": "Out", "mode": mode, "cfg": [cfg[0], cfg[1], cfg[2]], "out": list(p.stdout + p.stderr)}
                     shutil.rmtree(xd, ignore_errors=True)
                 if p.returncode not in (0, 1, 255):      # (255 = the tool's own exit(-1), e.g. after "Failed to read file type": a normal exit)
